@@ -248,6 +248,33 @@ func (s *cStream) EventsLost(count int) {
 
 var concHist = core.NewHist(8192)
 
+// ExecCPlanFor returns the interpreter labelled for a property. C11 judges
+// everything; C19 (which also quantifies over Maintain/Close arriving from a
+// ticker goroutine and from callbacks) only keeps the delivery verdicts:
+// every message pushed before Close delivered exactly once, nothing twice.
+func ExecCPlanFor(prop string) func(p *CPlan, trace bool) *core.Result {
+	return func(p *CPlan, trace bool) *core.Result {
+		concProp = prop
+		res := ExecCPlan(p, trace)
+		if prop == "C11" {
+			return res
+		}
+		var keep []core.Violation
+		for _, v := range res.Violations {
+			switch v.Kind {
+			case "message-not-delivered", "duplicate-delivery", "unknown-message":
+				v.Property = prop
+				keep = append(keep, v)
+			}
+		}
+		res.Violations = keep
+		return res
+	}
+}
+
+// concProp labels deadlock verdicts (the process is abandoned from inside).
+var concProp = "C11"
+
 // ExecCPlan runs a concurrent plan under the seeded scheduler.
 func ExecCPlan(p *CPlan, trace bool) *core.Result {
 	res := &core.Result{Probes: make([]int, nCProbes), Faults: make([]int, nCFaults)}
@@ -366,13 +393,13 @@ func ExecCPlan(p *CPlan, trace bool) *core.Result {
 	}
 	switch verdict {
 	case core.VerdictDeadlock:
-		v := core.Violation{Property: "C11", Kind: "deadlock", Class: "lock", Detail: "every unfinished task is blocked on a lock: " + sc.Describe()}
+		v := core.Violation{Property: concProp, Kind: "deadlock", Class: "lock", Detail: "every unfinished task is blocked on a lock: " + sc.Describe()}
 		core.AbandonDeadlock(v, res.Trace)
 	case core.VerdictStuck:
 		fmt.Println("SIM-STUCK", sc.Describe())
 		core.AbandonInternal("simulator stuck: lock held across a sleep: " + sc.Describe())
 	case core.VerdictStepCap:
-		res.Add("C11", "no-termination", "steps", "step cap reached with runnable tasks: "+sc.Describe())
+		res.Add(concProp, "no-termination", "steps", "step cap reached with runnable tasks: "+sc.Describe())
 		core.AbandonDeadlock(res.Violations[len(res.Violations)-1], res.Trace)
 	}
 	for _, t := range sc.Tasks {
